@@ -5,11 +5,341 @@ package main
 
 import (
 	"bytes"
+	"errors"
 	"fmt"
+	"strconv"
 	"strings"
 
 	legacy "github.com/evanphx/json-patch"
 )
+
+// cumulative copy totals, learnt from the legacy library's own error values
+func legacyCopyTotals(neg bool, doc, patch []byte) []int64 {
+	var totals []int64
+	limit := int64(1)
+	for len(totals) < 16 {
+		var acc int64 = -1
+		guarded(func() string {
+			legacy.SupportNegativeIndices = neg
+			legacy.AccumulatedCopySizeLimit = limit
+			p, err := legacy.DecodePatch(patch)
+			if err != nil {
+				return ""
+			}
+			_, err = p.Apply(doc)
+			var ce *legacy.AccumulatedCopySizeError
+			if errors.As(err, &ce) {
+				s := ce.Error()
+				if i := strings.Index(s, "copy is "); i >= 0 {
+					rest := s[i+len("copy is "):]
+					if j := strings.Index(rest, ","); j >= 0 {
+						acc, _ = strconv.ParseInt(rest[:j], 10, 64)
+					}
+				}
+			}
+			return ""
+		})
+		if acc <= 0 {
+			return totals
+		}
+		totals = append(totals, acc)
+		limit = acc
+	}
+	return totals
+}
+
+// hand-made documents and operations that exercise the corners of the legacy code:
+// nil nodes, nil raw messages, raw `null` copies, lazily parsed (hence re-sorted) objects,
+// duplicate names, escapes, operations with missing or ill-typed members
+var awkDocs = []string{
+	`{"a":{"z":1,"b":[1,2,{"y":null,"x":"<&>"}],"a":2},"n":null,"s":"\u2028 \u00e9","k":[[],{}]}`,
+	`{"a":{"z":1,"b":[1,2,{"y":null,"x":"<&>"}],"a":2},"n":null,"s":"\u2028 \u00e9","k":[[],{}]}`,
+	" \r\n[ {\"b\":1,\"a\":2, \"b\":3}, null, [null], \"x\", {\"a\":{\"b\":[0]}} ]",
+	"\t[[1,2,3],{\"b\":[4,5]},{\"a\":{\"z\":0,\"b\":[7,8,9]}}]",
+	`{"a":{"b":{"c":{"d":1}}},"":{"":0},"~":1,"/":2,"a/b":3,"m~n":4}`,
+	`null`, `{}`, `[]`, ` null `, "\r[]", `1`, `"s"`,
+	`{"é":1,"e":2,"E":3,"":4,"\u00e9":5,"a":{"b":[{"q":1,"p":2}]}}`,
+	`{"a":[1,2,3],"b":{"q":[{"z":1,"y":2}],"b":[1]},"n":{"x":null}}`,
+	"{\"a\" : { \"b\" : [ 1 , { \"k\\u0031\" : \"\\u003c\" , \"k1\" : \"<\" } ] , \"\xff\" : \"\xfe\" } }",
+}
+
+var awkOps = []string{
+	`{"op":"add","path":"/n2","value":null}`,
+	`{"op":"add","path":"/a/nn","value":null}`,
+	`{"op":"add","path":"/0/nn","value":null}`,
+	`{"op":"copy","from":"/n2","path":"/m"}`,
+	`{"op":"copy","from":"/a/nn","path":"/a/mm"}`,
+	`{"op":"copy","from":"/0/nn","path":"/0/mm"}`,
+	`{"op":"copy","from":"/n","path":"/m"}`,
+	`{"op":"copy","from":"/nope","path":"/m"}`,
+	`{"op":"add","path":"/m/x","value":1}`,
+	`{"op":"add","path":"/a/mm/x","value":1}`,
+	`{"op":"test","path":"/m","value":null}`,
+	`{"op":"test","path":"/m"}`,
+	`{"op":"test","path":"/m","value":{}}`,
+	`{"op":"test","path":"/m/x","value":null}`,
+	`{"op":"test","path":"/a/mm/x"}`,
+	`{"op":"remove","path":"/m/x"}`,
+	`{"op":"replace","path":"/m/x","value":2}`,
+	`{"op":"move","from":"/m","path":"/mv"}`,
+	`{"op":"move","from":"/m/x","path":"/mv"}`,
+	`{"op":"copy","from":"/m","path":"/m2"}`,
+	`{"op":"copy","from":"/a","path":"/a/self"}`,
+	`{"op":"copy","from":"/a/b","path":"/a/b/-"}`,
+	`{"op":"copy","from":"/a","path":"/a/b/0"}`,
+	`{"op":"copy","from":"/a/b/2","path":"/a/b/2/c"}`,
+	`{"op":"copy","from":"/0","path":"/0/c"}`,
+	`{"op":"copy","from":"/2","path":"/2/a/b/1"}`,
+	`{"op":"copy","from":"/a","path":"/c"}`,
+	`{"op":"copy","from":"/k","path":"/k/1/kk"}`,
+	`{"op":"move","from":"/a/b","path":"/a/bb"}`,
+	`{"op":"move","from":"/a","path":"/a/b"}`,
+	`{"op":"test","path":"/a","value":{"a":2,"b":[1,2,{"x":"<&>","y":null}],"z":1}}`,
+	`{"op":"test","path":"/a","value":{"a":2,"b":[1,2,{"x":"\u003c&>","y":null}],"z":1}}`,
+	`{"op":"test","path":"/a/b/2","value":{"y":null,"x":"<&>"}}`,
+	`{"op":"test","path":"/a/b/2","value":{"x":"<&>"}}`,
+	`{"op":"test","path":"/a/b","value":[1,2,{"y":null,"x":"<&>"}]}`,
+	`{"op":"test","path":"/a/b","value":[1, 2.0,{"y":null,"x":"<&>"}]}`,
+	`{"op":"test","path":"/0","value":{"a":2,"b":3}}`,
+	`{"op":"test","path":"/0","value":{"a":2,"b":1}}`,
+	`{"op":"test","path":"/0","value":{"b":3,"a":2,"b":1}}`,
+	`{"op":"test","path":"/2","value":[null]}`,
+	`{"op":"test","path":"/2/0","value":null}`,
+	`{"op":"test","path":"/2/0"}`,
+	`{"op":"test","path":"/1"}`,
+	`{"op":"test","path":"/1","value":0}`,
+	`{"op":"test","path":"/s","value":"\u2028 é"}`,
+	"{\"op\":\"test\",\"path\":\"/s\",\"value\":\"\xe2\x80\xa8 \\u00e9\"}",
+	`{"op":"test","path":"/k","value":[[],{}]}`,
+	`{"op":"test","path":"/k","value":[ [ ] , { } ]}`,
+	`{"op":"test","path":"/n","value":null}`,
+	`{"op":"test","path":"/n"}`,
+	`{"op":"test","path":"/n","value":0}`,
+	`{"op":"test","path":"/nope","value":null}`,
+	`{"op":"test","path":"/nope"}`,
+	`{"op":"test","path":"/nope","value":1}`,
+	`{"op":"test","path":"/nope/x","value":null}`,
+	`{"op":"test","path":"","value":null}`,
+	`{"op":"test","path":""}`,
+	`{"op":"test","path":"","value":{}}`,
+	`{"op":"test","path":"","value":[]}`,
+	`{"op":"test","path":"","value":{"a":[1,2,3],"b":{"q":[{"y":2,"z":1}],"b":[1]},"n":{"x":null}}}`,
+	`{"op":"test","path":"","value":[{"a":2,"b":3},null,[null],"x",{"a":{"b":[0]}}]}`,
+	`{"op":"replace","path":"","value":{"z":{"b":1,"a":[null]},"a":null}}`,
+	`{"op":"replace","path":"","value":[{"b":1,"a":2},null]}`,
+	`{"op":"replace","path":"","value":[]}`,
+	`{"op":"replace","path":"","value":{}}`,
+	`{"op":"replace","path":"","value":1}`,
+	`{"op":"replace","path":"","value":"s"}`,
+	`{"op":"replace","path":"","value":null}`,
+	`{"op":"replace","path":""}`,
+	`{"op":"add","path":"","value":{}}`,
+	`{"op":"remove","path":""}`,
+	`{"op":"move","from":"","path":"/a"}`,
+	`{"op":"copy","from":"","path":"/a"}`,
+	`{"op":"copy","from":"/a","path":""}`,
+	`{"op":"add","path":1,"value":1}`,
+	`{"op":"remove","path":1}`,
+	`{"op":"replace","path":1,"value":1}`,
+	`{"op":"replace","path":null,"value":1}`,
+	`{"op":"test","path":null}`,
+	`{"op":"test","path":[]}`,
+	`{"op":"move","from":2,"path":"/a"}`,
+	`{"op":"move","from":"/a","path":2}`,
+	`{"op":"move","from":"/a"}`,
+	`{"op":"move","path":"/a"}`,
+	`{"op":"copy","from":"/a"}`,
+	`{"op":"copy","from":"/a","path":7}`,
+	`{"op":"copy","from":{},"path":"/a"}`,
+	`{"op":"copy","path":"/a"}`,
+	`{"op":1}`, `{}`, `null`, `{"op":null,"path":"/a"}`, `{"op":"Add","path":"/a","value":1}`, `{"path":"/a"}`,
+	`{"op":"remove","op":"add","path":"/dup","value":1}`,
+	`{"op":"add","path":"/a/b/-"}`,
+	`{"op":"add","path":"/nv"}`,
+	`{"op":"replace","path":"/a/z"}`,
+	`{"op":"replace","path":"/a/new","value":1}`,
+	`{"op":"replace","path":"/a/b/0"}`,
+	`{"op":"add","path":"/nv/x","value":1}`,
+	`{"op":"add","path":"/a/z/q","value":1}`,
+	`{"op":"add","path":"/n/x","value":1}`,
+	`{"op":"add","path":"/zz/yy","value":1}`,
+	`{"op":"remove","path":"/n/x"}`,
+	`{"op":"remove","path":"/n"}`,
+	`{"op":"remove","path":"/nope"}`,
+	`{"op":"add","path":"/a/b/-1","value":"m1"}`,
+	`{"op":"add","path":"/a/b/-3","value":"m3"}`,
+	`{"op":"add","path":"/a/b/-4","value":"m4"}`,
+	`{"op":"add","path":"/a/b/-5","value":"m5"}`,
+	`{"op":"add","path":"/a/b/3","value":"p3"}`,
+	`{"op":"add","path":"/a/b/4","value":"p4"}`,
+	`{"op":"add","path":"/a/b/+1","value":"pp"}`,
+	`{"op":"add","path":"/a/b/01","value":"p01"}`,
+	`{"op":"add","path":"/a/b/x","value":"px"}`,
+	`{"op":"add","path":"/a/b/","value":"pe"}`,
+	`{"op":"add","path":"/a/b/9223372036854775808","value":"big"}`,
+	`{"op":"add","path":"/a/b/-9223372036854775808","value":"big"}`,
+	`{"op":"remove","path":"/a/b/-1"}`,
+	`{"op":"remove","path":"/a/b/-3"}`,
+	`{"op":"remove","path":"/a/b/-4"}`,
+	`{"op":"remove","path":"/a/b/3"}`,
+	`{"op":"remove","path":"/a/b/-"}`,
+	`{"op":"remove","path":"/a/b/x"}`,
+	`{"op":"replace","path":"/a/b/-1","value":"r"}`,
+	`{"op":"replace","path":"/a/b/-3","value":"r"}`,
+	`{"op":"replace","path":"/a/b/-4","value":"r"}`,
+	`{"op":"replace","path":"/a/b/3","value":"r"}`,
+	`{"op":"replace","path":"/a/b/-","value":"r"}`,
+	`{"op":"test","path":"/a/b/-1","value":{"x":"<&>","y":null}}`,
+	`{"op":"test","path":"/a/b/-4","value":1}`,
+	`{"op":"test","path":"/a/b/3","value":1}`,
+	`{"op":"test","path":"/a/b/x","value":1}`,
+	`{"op":"move","from":"/a/b/0","path":"/a/b/-"}`,
+	`{"op":"move","from":"/a/b/-1","path":"/a/b/0"}`,
+	`{"op":"move","from":"/a/b/5","path":"/a/b/0"}`,
+	`{"op":"copy","from":"/a/b/-1","path":"/a/b/-1"}`,
+	`{"op":"copy","from":"/a/b/x","path":"/a/b/0"}`,
+	`{"op":"copy","from":"/a/b/9","path":"/a/b/0"}`,
+	`{"op":"copy","from":"/a/b/0","path":"/a/b/9"}`,
+	`{"op":"add","path":"/-","value":"end"}`,
+	`{"op":"add","path":"/0","value":{"b":1,"a":{"d":1,"c":2}}}`,
+	`{"op":"add","path":"/0/a/e","value":3}`,
+	`{"op":"remove","path":"/0"}`,
+	`{"op":"remove","path":"/1"}`,
+	`{"op":"replace","path":"/1","value":{"z":null,"a":null}}`,
+	`{"op":"add","path":"/4/a/b/-","value":null}`,
+	`{"op":"add","path":"/1/x","value":1}`,
+	`{"op":"add","path":"/3/x","value":1}`,
+	`{"op":"add","path":"/~1","value":"slash"}`,
+	`{"op":"add","path":"/~0","value":"tilde"}`,
+	`{"op":"add","path":"/~01","value":"t1"}`,
+	`{"op":"add","path":"/","value":"empty"}`,
+	`{"op":"add","path":"//","value":"ee"}`,
+	`{"op":"remove","path":"//"}`,
+	`{"op":"add","path":"/a~1b","value":"ab"}`,
+	`{"op":"remove","path":"/m~0n"}`,
+	`{"op":"add","path":"/\u00e9","value":"e-acute"}`,
+	"{\"op\":\"add\",\"path\":\"/\xff\",\"value\":\"\xff<\"}",
+	`{"op":"add","path":"/\ud800","value":"\udc00"}`,
+	`{"op":"add","path":"/<k&>","value":{"<":">","\u2028":"\u2029"}}`,
+	`{"op":"add","path":"/a/b/2/w","value":{"d":{"b":1,"a":1,"b":2},"c":[{"b":1,"a":1}]}}`,
+	`{"op":"test","path":"/a/b/2/w/d","value":{"a":1,"b":2}}`,
+	`{"op":"test","path":"/a/b/2/w","value":{"c":[{"a":1,"b":1}],"d":{"a":1,"b":2}}}`,
+	`{"op":"add","path":"a","value":1}`,
+	`{"op":"remove","path":"a"}`,
+	`{"op":"add","path":"/a/b/c/d/e","value":1}`,
+	`{"op":"replace","path":"/a/b/c/d","value":{"e":[]}}`,
+	`{"op":"add","path":"/a/b/c/d/e/-","value":[]}`,
+	`{"op":"test","path":"/a/b/c","value":{"d":1}}`,
+	`{"op":"test","path":"/a/b/c","value":{"d":1.0}}`,
+	`{"op":"test","path":"//","value":0}`,
+	`{"op":"copy","from":"//","path":"/a/b/c/z"}`,
+	`{"op":"test","path":"/é","value":5}`,
+	`{"op":"test","path":"/\u00e9","value":1}`,
+	`{"op":"copy","from":"/a/b/0","path":"/cp"}`,
+	`{"op":"test","path":"/a/b/0","value":{"p":2,"q":1}}`,
+	`{"op":"test","path":"/a/b/1","value":{"k1":"<"}}`,
+	`{"op":"test","path":"/a/b/1","value":{"k1":"\u003c"}}`,
+	`{"op":"copy","from":"/a/b/1","path":"/cp"}`,
+	"{\"op\":\"copy\",\"from\":\"/a/\xff\",\"path\":\"/cp\"}",
+	`{"op":"copy","from":"/a/\ufffd","path":"/cp"}`,
+	`{"op":"unknown","path":"/a"}`,
+}
+
+// complete (document, patch) pairs: sequences that reach states single random operations rarely do
+var awkScripts = [][2]string{
+	{`{"a":1}`, `[{"op":"add","path":"/n","value":null},{"op":"copy","from":"/n","path":"/m"},{"op":"test","path":"/m/x","value":null},{"op":"test","path":"/m","value":{}},{"op":"add","path":"/k","value":1}]`},
+	{`{"a":1}`, `[{"op":"add","path":"/n","value":null},{"op":"copy","from":"/n","path":"/m"},{"op":"test","path":"/m","value":null},{"op":"test","path":"/m/x"},{"op":"test","path":"/m","value":null}]`},
+	{`{"a":1}`, `[{"op":"add","path":"/n","value":null},{"op":"copy","from":"/n","path":"/m"},{"op":"test","path":"/m/x","value":null},{"op":"add","path":"/m/x","value":1}]`},
+	{`{"a":1}`, `[{"op":"add","path":"/n","value":null},{"op":"copy","from":"/n","path":"/m"},{"op":"test","path":"/m/x","value":null},{"op":"remove","path":"/m/x"}]`},
+	{`{"a":1}`, `[{"op":"add","path":"/n","value":null},{"op":"copy","from":"/n","path":"/m"},{"op":"replace","path":"/m/x","value":1}]`},
+	{`{"a":1}`, `[{"op":"add","path":"/n","value":null},{"op":"copy","from":"/n","path":"/m"},{"op":"test","path":"/m/x"},{"op":"copy","from":"/m","path":"/m3"},{"op":"move","from":"/m","path":"/q"},{"op":"test","path":"/q","value":{}},{"op":"test","path":"/m3","value":null}]`},
+	{`[0]`, `[{"op":"add","path":"/-","value":null},{"op":"copy","from":"/1","path":"/-"},{"op":"test","path":"/2/x"},{"op":"test","path":"/2","value":{}},{"op":"test","path":"/1","value":null},{"op":"copy","from":"/2/x","path":"/-"}]`},
+	{`{"a":1}`, `[{"op":"replace","path":"","value":{"b":{"d":1,"c":2},"a":{"z":1,"y":2}}},{"op":"add","path":"/b/e","value":3},{"op":"copy","from":"/b","path":"/c"},{"op":"copy","from":"/a","path":"/d"}]`},
+	{`{"a":1}`, `[{"op":"replace","path":"","value":[{"d":1,"c":2},[3]]},{"op":"add","path":"/1/-","value":{"z":1,"a":2}},{"op":"copy","from":"/1/1","path":"/0/e"},{"op":"test","path":"","value":[{"c":2,"d":1,"e":{"a":2,"z":1}},[3,{"a":2,"z":1}]]}]`},
+	{` [1,2]`, `[{"op":"add","path":"/-1","value":"x"},{"op":"add","path":"/-4","value":"y"},{"op":"remove","path":"/-4"},{"op":"replace","path":"/-3","value":"z"},{"op":"test","path":"/-1","value":"x"}]`},
+	{`{"z":{"y":1,"x":2},"a":[{"c":1,"b":2}],"m":{"q":{"s":1,"r":2}}}`, `[{"op":"test","path":"","value":{"m":{"q":{"r":2,"s":1}},"a":[{"b":2,"c":1}],"z":{"x":2,"y":1}}}]`},
+	{`{"z":{"y":1,"x":2},"a":[{"c":1,"b":2}],"m":{"q":{"s":1,"r":2}}}`, `[{"op":"test","path":"/m","value":{"q":{"r":2,"s":1}}},{"op":"test","path":"/a/0/c","value":1}]`},
+	{`{"z":{"y":1,"x":2,"y":3},"z2":{"y":1,"x":2,"y":3}}`, `[{"op":"test","path":"/z","value":{"x":2,"y":3}},{"op":"copy","from":"/z2","path":"/z3"}]`},
+	{`{}`, `[{"op":"add","path":"/v","value":{"b":1,"a":1,"b":2}},{"op":"add","path":"/w","value":{"b":1,"a":1,"b":2}},{"op":"test","path":"/v","value":{"a":1,"b":2}}]`},
+	{`{}`, `[{"op":"add","path":"/nv"},{"op":"test","path":"/nv"},{"op":"test","path":"/nv","value":null},{"op":"copy","from":"/nv","path":"/nv2"},{"op":"move","from":"/nv2","path":"/nv3"}]`},
+	{`{}`, `[{"op":"add","path":"/nv"},{"op":"add","path":"/nv/x","value":1}]`},
+	{`{}`, `[{"op":"add","path":"/nv"},{"op":"test","path":"/nv","value":0}]`},
+	{`{"arr":[null,{"a":null}]}`, `[{"op":"test","path":"/arr/0","value":null},{"op":"test","path":"/arr/0"},{"op":"test","path":"/arr/1/a"},{"op":"test","path":"/arr/1/b"},{"op":"test","path":"/arr/1","value":{"a":null}},{"op":"test","path":"/arr","value":[null,{"a":null}]}]`},
+	{`{"arr":[null,{"a":null}]}`, `[{"op":"test","path":"/arr/1","value":{}}]`},
+	{`{"arr":[null,{"a":null}]}`, `[{"op":"test","path":"/arr/1","value":{"b":null}}]`},
+	{`null`, `[{"op":"test","path":"/x","value":null},{"op":"test","path":"","value":{}}]`},
+	{`null`, `[{"op":"add","path":"/x","value":1}]`},
+	{`null`, `[{"op":"remove","path":"/x"}]`},
+	{`null`, `[{"op":"replace","path":"/x","value":1}]`},
+	{`null`, `[{"op":"copy","from":"/x","path":"/y"}]`},
+	{`null`, `[{"op":"replace","path":"","value":{}},{"op":"add","path":"/x","value":1}]`},
+	{`null`, `[{"op":"test","path":"","value":null}]`},
+	{`{"a":{"b":[1,{"c":[{"e":1,"d":2}]}]}}`, `[{"op":"copy","from":"/a/b/1","path":"/a/b/1/c/0/f"},{"op":"copy","from":"/a","path":"/a/b/1/c/-"}]`},
+	{`{"a":{"b":[1,{"c":[{"e":1,"d":2}]}]}}`, `[{"op":"move","from":"/a/b/1/c/0","path":"/x"},{"op":"add","path":"/x/c","value":0},{"op":"move","from":"/a/b","path":"/x/b"}]`},
+	{`{"a":"< >","b":{"<":1}}`, `[{"op":"copy","from":"/a","path":"/c"},{"op":"copy","from":"/b","path":"/d"},{"op":"test","path":"/c","value":"< >"},{"op":"test","path":"/d","value":{"<":1}}]`},
+	{`{"a":"< >","b":{"<":1}}`, `[{"op":"copy","from":"/a","path":"/c"},{"op":"test","path":"/c","value":"< >"}]`},
+}
+
+func awkwardCase(r *rng) (doc, patch []byte) {
+	if r.chance(1, 8) {
+		sc := awkScripts[r.n(len(awkScripts))]
+		doc, patch = []byte(sc[0]), []byte(sc[1])
+		if r.chance(1, 2) {
+			// cut the script short
+			if p, err := parseJV(patch); err == nil && len(p.arr) > 1 {
+				p.arr = p.arr[:1+r.n(len(p.arr))]
+				patch = spell{1, r}.text(p)
+			}
+		}
+		return
+	}
+	doc = []byte(awkDocs[r.n(len(awkDocs))])
+	n := 1 + r.n(5)
+	var xs []string
+	for i := 0; i < n; i++ {
+		xs = append(xs, awkOps[r.n(len(awkOps))])
+	}
+	sep := r.pick([]string{",", ", ", " ,\n"})
+	patch = []byte("[" + strings.Join(xs, sep) + "]")
+	switch r.n(40) {
+	case 0:
+		patch = []byte("null")
+	case 1:
+		patch = []byte(" [ ] ")
+	case 2:
+		patch = []byte(r.pick([]string{"{}", "1", "[1]", "[[]]", "[\"add\"]", "[{},null,{}]", "[null]", ""}))
+	}
+	return
+}
+
+var awkTexts = []string{"1", "1.0", "1e0", "-0", "0", "\"a\"", "\"\\u0061\"", "\"\\u003c\"", "\"<\"", "null", " null ", "\nnull", "true", " true", "false",
+	"{\"a\":1,\"a\":2}", "{\"a\":2}", "{\"a\":2,\"a\":1}", "[null]", "[ null ]", "{}", "{ }", "[]", "[ ]", "{\"a\":null}", "{\"b\":null}",
+	"{\"a\":null,\"b\":null}", "{\"a\":{}}", "{\"a\":[]}", "{\"a\":[null]}", "{\"a\":[{}]}", "[[]]", "[{}]", "[1,2]", "[1, 2]", "[2,1]", "[1,2,3]",
+	"{\"a\":1,\"b\":2}", "{\"b\":2,\"a\":1}", "{\"b\":2 , \"a\" : 1}", "{\"a\":1,\"b\":2,\"c\":3}", "{\"\\u0061\":1,\"b\":2}", "{\"a\":\"\\u0062\"}", "{\"a\":\"b\"}",
+	"{", "}", "[1", "", " ", "tru", "nul", "nulll", "[1,]", "{\"a\"}", "\"\xff\"", "\"\\ufffd\"", "{\"\xff\":1}", "{\"\\ufffd\":1}", "[\"\xe2\x80\xa8\"]", "[\"\\u2028\"]",
+	"{\"a\":{\"b\":{\"c\":[1,{\"d\":null}]}}}", "{\"a\":{\"b\":{\"c\":[1,{\"d\":null,\"d\":null}]}}}", "{\"a\":{\"b\":{\"c\":[1,{}]}}}", "1 ", "2", "\"\"", "\" \""}
+
+var awkMerge = []string{
+	`{"a":{"b":1,"c":{"d":null,"e":[{"f":null}]}},"n":null,"a":{"x":1}}`,
+	`{"a":{"b":null,"c":{"d":1,"e":null,"z":{"q":null,"r":{"s":null}}}},"new":{"k":null,"l":{"m":null,"m":1},"o":[null,{"p":null}]}}`,
+	`{"a":[{"b":null}],"c":null,"d":{"e":null}}`,
+	`{"a":{"z":1,"y":2,"z":3},"b":"<&>","c":"\u2028","d":[1,  2]}`,
+	`{"a":{"y":null,"w":{"v":null}},"b":null,"e":{"z":1,"a":{"n":null,"b":1}}}`,
+	`{"a":null,"a":{"k":1}}`, `{"a":{"k":1},"a":null}`,
+	`{"<":{">":null,"&":{"\u2028":null}}}`, `{"<":{">":1,"&":{"\u2028":1,"é":2}}}`,
+	"{\"\xff\":{\"a\":null},\"\\ufffd\":null}", "{\"\xff\":{\"a\":1,\"b\":2}}",
+	`{}`, `[]`, `[null,{"a":null}]`, `null`, `1`, `"s"`, `true`, ` { "a" : { } } `, `{"a":{}}`, `{"a":[]}`, `{"a":1}`, `{"a":{"b":{"c":{"d":{"e":null}}}}}`,
+	`{"a":{"b":{"c":{"d":{"e":1,"f":2}}}}}`, `{"a":{"b":{"c":1}}}`, `{"a":{"b":[{"c":null}]}}`, `{"k":{"z":null,"y":{"x":null,"w":1}},"j":{"i":null}}`,
+}
+
+var awkCreate = []string{
+	`{}`, `null`, `[]`, `[{}]`, `[null]`, `[{"a":1}]`, `[{"a":1},{}]`, `[{"a":2},{"b":null}]`, `[1]`, `[[]]`, `1`, `"s"`, `[`, `{`, ``,
+	"\u00a0[{}]", "[{}]\u2028", "\v{}", "\v[{}]\f", " [{}] ", "\u00a0{}", "x[{}]", "[{}]x", "\xa0[{}]", "[{}]\xc2", "\u3000[{\"a\":1}]\u0085", "[{}]\xe2\x80",
+	`{"a":-1,"b":-20,"c":[1,-2,{"d":-3}]}`, `{"a":-1,"b":20,"c":[1,-2,{"d":3}]}`, `{"a":{"b":{"c":1,"d":null}},"e":[],"f":"<&>"}`,
+	`{"a":{"b":{"c":1,"d":2}},"e":{},"f":"\u003c&>"}`, `{"a":{"b":{}},"e":[{}],"f":null}`, `{"a":1,"a":2,"b":{"x":1,"x":2}}`, `{"a":2,"b":{"x":2}}`,
+	"{\"\xff\":\"\xfe\",\"s\":\"\\ud800\"}", "{\"\\ufffd\":\"\\ufffd\",\"s\":\"\\ufffd\"}", `{"a":true,"b":false,"c":"true"}`, `{"a":false,"b":false,"c":true}`,
+	`{"a":[],"b":[[]],"c":[{}],"d":[null]}`, `{"a":[null],"b":[[]],"c":[{"x":null}],"d":[]}`,
+}
 
 func lobs(outb []byte, err error) string { return obsOf(outb, err) }
 
@@ -65,13 +395,41 @@ func streamLegacy(stream string, r *rng, n int, pfx string) {
 		switch stream {
 		case "legacy-apply", "legacy-limit":
 			o := aopts{neg: r.chance(3, 4), esc: true}
-			// pointers relative to the evolving document, computed with the v5 library
-			ac := genApplyCase(r, c, o, r.n(3), r.n(3), 5)
+			var doc, patch []byte
+			var ops []opSpec
+			if r.chance(1, 3) {
+				doc, patch = awkwardCase(r)
+			} else {
+				// pointers relative to the evolving document, computed with the v5 library
+				ac := genApplyCase(r, c, o, r.n(3), r.n(3), 5)
+				doc, patch, ops = ac.doc, ac.patch, ac.ops
+				if stream == "legacy-limit" {
+					hasCopy := false
+					for _, op := range ops {
+						if op.op == "copy" {
+							hasCopy = true
+						}
+					}
+					if docv, err := parseJV(doc); !hasCopy && err == nil && docv.isCon() {
+						f := existingPath(r, docv)
+						ops = append([]opSpec{{op: "copy", path: pickPath(r, docv, true), from: &f}}, ops...)
+						patch = spell{r.n(3), r}.patchText(ops)
+					}
+				}
+			}
 			var limit int64
 			if stream == "legacy-limit" {
-				limit = int64(1 + r.n(60))
+				totals := legacyCopyTotals(o.neg, doc, patch)
+				if len(totals) == 0 || r.chance(1, 10) {
+					limit = int64(1 + r.n(60))
+				} else {
+					limit = totals[r.n(len(totals))] + int64(r.n(3)) - 1
+					if limit < 1 {
+						limit = 1
+					}
+				}
 			}
-			emitLApply(id, o.neg, limit, ac.doc, ac.patch, ac.ops)
+			emitLApply(id, o.neg, limit, doc, patch, ops)
 		case "legacy-merge":
 			c.nullW = 2 + r.n(3)
 			var d *jv
@@ -82,6 +440,12 @@ func streamLegacy(stream string, r *rng, n int, pfx string) {
 			}
 			p := genMergePatch(r, d, c, 0)
 			td, tp := spell{r.n(3), r}.text(d), spell{r.n(3), r}.text(p)
+			if r.chance(1, 6) {
+				td, tp = []byte(r.pick(awkMerge)), []byte(r.pick(awkMerge))
+			}
+			if r.chance(1, 40) {
+				tp = corrupt(r, tp)
+			}
 			emit("LMERGE %s %s %s => %s", id, hx(td), hx(tp), callLMerge(td, tp))
 		case "legacy-compose":
 			c.nullW = 2 + r.n(3)
@@ -92,6 +456,9 @@ func streamLegacy(stream string, r *rng, n int, pfx string) {
 				p2 = genMergePatch(r, d, c, 0)
 			}
 			t1, t2, td := spell{r.n(3), r}.text(p1), spell{r.n(3), r}.text(p2), spell{r.n(3), r}.text(d)
+			if r.chance(1, 6) {
+				t1, t2, td = []byte(r.pick(awkMerge)), []byte(r.pick(awkMerge)), []byte(r.pick(awkMerge))
+			}
 			comb := callLMergeMerge(t1, t2)
 			seq := "err:-n"
 			if b, ok := okBytes(callLMerge(td, t1)); ok {
@@ -115,7 +482,28 @@ func streamLegacy(stream string, r *rng, n int, pfx string) {
 			if r.chance(1, 10) {
 				b = genValue(r, c, 0)
 			}
+			if r.chance(1, 8) { // arrays of objects
+				k := r.n(4)
+				a, b = &jv{kind: kArr}, &jv{kind: kArr}
+				for j := 0; j < k; j++ {
+					x := genObj(r, c, 1)
+					a.arr = append(a.arr, x)
+					b.arr = append(b.arr, mutateValue(r, x, c))
+				}
+				if r.chance(1, 4) {
+					b.arr = append(b.arr, genObj(r, c, 1))
+				}
+			}
+			if r.chance(1, 4) {
+				b = shuffleMembers(r, b)
+			}
 			ta, tb := spell{r.n(3), r}.text(a), spell{r.n(3), r}.text(b)
+			if r.chance(1, 6) {
+				ta, tb = []byte(r.pick(awkCreate)), []byte(r.pick(awkCreate))
+			}
+			if r.chance(1, 40) {
+				tb = corrupt(r, tb)
+			}
 			pobs := callLCreate(ta, tb)
 			mobs := "err:-n"
 			if pb, ok := okBytes(pobs); ok {
@@ -124,6 +512,9 @@ func streamLegacy(stream string, r *rng, n int, pfx string) {
 			emit("LCREATE %s %s %s => %s %s", id, hx(ta), hx(tb), pobs, mobs)
 		case "legacy-equal":
 			a := genContainer(r, c)
+			if r.chance(1, 6) {
+				a = genValue(r, c, 0)
+			}
 			var b *jv
 			switch r.n(4) {
 			case 0:
@@ -133,7 +524,16 @@ func streamLegacy(stream string, r *rng, n int, pfx string) {
 			default:
 				b = mutateValue(r, a, c)
 			}
-			ta, tb := spell{r.n(2), r}.text(a), spell{r.n(2), r}.text(b)
+			ta, tb := spell{r.n(3), r}.text(a), spell{r.n(3), r}.text(b)
+			if r.chance(1, 6) {
+				ta, tb = []byte(r.pick(awkTexts)), []byte(r.pick(awkTexts))
+			}
+			if r.chance(1, 30) {
+				tb = corrupt(r, tb)
+				if r.chance(1, 2) {
+					ta = append([]byte(nil), tb...)
+				}
+			}
 			emit("LEQUAL %sa %s %s => %s", id, hx(ta), hx(tb), callLEqual(ta, tb))
 			emit("LEQUAL %sb %s %s => %s", id, hx(tb), hx(ta), callLEqual(tb, ta))
 		case "legacy-bytes":
